@@ -159,6 +159,14 @@ def decorate(ts, rng, info, *, want_individuals=True, allow_migrations=True):
         t.individuals.packset_metadata(rows)
         t.individuals.packset_location([rng.uniform(0, 1, size=int(rng.integers(0, 3))) for _ in range(t.individuals.num_rows)])
         fired.append("individuals_meta")
+    # individuals that no node refers to
+    if t.individuals.num_rows > 0 and rng.random() < 0.3:
+        for j in range(int(rng.integers(1, 3))):
+            try:
+                t.individuals.add_row(flags=int(rng.integers(0, 4)), metadata={"orphan": j})
+            except Exception:
+                t.individuals.add_row(flags=int(rng.integers(0, 4)))
+        fired.append("individuals_unreferenced")
     # migrations (synthetic rows; includes equal-time rows out of tskit's canonical order)
     if allow_migrations and rng.random() < 0.35 and t.populations.num_rows >= 2:
         L = t.sequence_length
@@ -212,14 +220,50 @@ def decorate(ts, rng, info, *, want_individuals=True, allow_migrations=True):
     return t.tree_sequence()
 
 
+def tight_internal_sample(ts, rng):
+    """Turn one internal non-root node into a sample whose time is only just above its oldest child:
+    the children are dated freely, so the constraint step usually has to move this sample (the rare input
+    class on which 'sample times are kept' does not hold literally)."""
+    import tskit
+    t = ts.dump_tables()
+    flags, time = t.nodes.flags, t.nodes.time
+    has_parent = set(t.edges.child.tolist())
+    cand = [u for u in set(t.edges.parent.tolist()) if u in has_parent and not (flags[u] & tskit.NODE_IS_SAMPLE)]
+    if not cand:
+        return ts, False
+    u = int(rng.choice(sorted(cand)))
+    kids = t.edges.child[t.edges.parent == u]
+    if np.all(flags[kids] & tskit.NODE_IS_SAMPLE):
+        return ts, False
+    new_time = float(np.max(time[kids])) * (1 + 1e-9) + 1e-9
+    if not new_time < time[u]:
+        return ts, False
+    time[u] = new_time
+    flags[u] |= tskit.NODE_IS_SAMPLE
+    t.nodes.time = time
+    t.nodes.flags = flags
+    mt = t.mutations.time
+    t.mutations.time = np.full_like(mt, tskit.UNKNOWN_TIME)
+    try:
+        t.sort()
+        return t.tree_sequence(), True
+    except Exception:
+        return ts, False
+
+
 def rich_ts(rng, *, discrete_ok=True, unphased=False, **kw):
     """A generated input carrying rich non-time information.
     discrete_ok: keep all samples at time 0 and no migrations (the discrete methods need that)."""
     ploidy = 2 if (unphased or rng.random() < 0.4) else 1
     base = dict(historical=0.0 if (discrete_ok or unphased) else 0.3, polytomy=0.15, rootmuts=0.2,
-                gaps=0.15, permute=0.0, ploidy=ploidy, n=int(rng.integers(2, 6)))
+                gaps=0.15, permute=0.0, ploidy=ploidy, n=int(rng.integers(2, 6)),
+                internal_samples=0.0 if (discrete_ok or unphased) else 0.5)
     base.update(kw)
     ts, info = gen.gen_ts(rng, **base)
+    if not (discrete_ok or unphased) and rng.random() < 0.3:
+        ts, ok = tight_internal_sample(ts, rng)
+        if ok:
+            info["fired"].append("tight_internal_sample")
     ts = decorate(ts, rng, info, want_individuals=not unphased, allow_migrations=not discrete_ok)
     info["ploidy"] = ploidy
     return ts, info
@@ -238,10 +282,17 @@ def capture_pipeline():
     orig_gmts = core.EstimationMethod.get_modified_ts
     orig_sort = tskit.TableCollection.sort
     orig_con = util.constrain_ages
+    orig_cmt = tskit.TableCollection.compute_mutation_times
 
     def gmts(self, result):
-        rec = dict(result=result, method=self, sorts=[], newtimes=None, out=None)
+        rec = dict(result=result, method=self, sorts=[], times_calls=[], newtimes=None, out=None)
         calls.append(rec)
+
+        def cmt(tc, *a, **k):
+            before = tc.copy()
+            r = orig_cmt(tc, *a, **k)
+            rec["times_calls"].append((before, tc.copy()))
+            return r
 
         def sort(tc, *a, **k):
             before = tc.copy()
@@ -255,6 +306,7 @@ def capture_pipeline():
             return out
 
         tskit.TableCollection.sort = sort
+        tskit.TableCollection.compute_mutation_times = cmt
         util.constrain_ages = con
         try:
             out = orig_gmts(self, result)
@@ -262,6 +314,7 @@ def capture_pipeline():
             return out
         finally:
             tskit.TableCollection.sort = orig_sort
+            tskit.TableCollection.compute_mutation_times = orig_cmt
             util.constrain_ages = orig_con
 
     core.EstimationMethod.get_modified_ts = gmts
@@ -480,4 +533,23 @@ def sort_contract_problems(before, after):
         bad.append("mutations-multiset")
     if not np.array_equal(before.mutations.site, after.mutations.site):
         bad.append("mutation-site-column")
+    return bad
+
+
+def times_contract_problems(before, after):
+    """The assumptions `TimesRel` makes about tskit's compute_mutation_times, on one real call."""
+    from collections import Counter
+    bad = []
+    for name in ("nodes", "edges", "sites", "individuals", "populations", "migrations", "provenances"):
+        if getattr(before, name) != getattr(after, name):
+            bad.append(name)
+    if not np.array_equal(before.mutations.site, after.mutations.site):
+        bad.append("mutation-site-column")
+
+    def rows(t):
+        return Counter(repr((r.site, r.node, r.derived_state, r.metadata)) for r in t.mutations)
+    if rows(before) != rows(after):
+        bad.append("mutations-multiset")
+    if before.mutations.metadata_schema != after.mutations.metadata_schema:
+        bad.append("mutations-schema")
     return bad
